@@ -304,9 +304,25 @@ Ltac solve_path :=
         | eapply path_one; [eassumption|simpl; auto]
         | eapply path_step; [eassumption|simpl; auto|solve_path] ].
 
+Lemma failed_not_inside : forall a i e, ainv a -> pc_at (a_sys a) i = Some (Failed e) -> ~ In i (a_in a).
+Proof.
+  intros a i e [P _ _] Hp Hi. destruct P as [_ _ Hd]. rewrite (Hd i Hi) in Hp. discriminate.
+Qed.
+
 Lemma try_mut_ainv : forall a m l a', try_mut a m l = Some a' -> ainv a -> ainv a' /\ a_in a' = a_in a.
 Proof.
-  intros a m l a' H [P Lo Nd]. unfold try_mut in H. rewrite Lo in H. cbn [existsb] in H.
+  intros a m l a' H Hinv. pose proof Hinv as [P Lo Nd]. unfold try_mut in H. rewrite Lo in H. cbn [existsb] in H.
+  destruct m; crack H; inversion H; subst a'; cbn [a_sys a_lose a_in]; (split; [|reflexivity]);
+    (split; cbn [a_sys a_lose a_in]; auto);
+    (eapply path_pinv; [|exact P]);
+    try solve_path.
+  (* the clean-up of a key left by a lost reply: LExit of a failed contender *)
+  eapply failed_not_inside; eauto.
+Qed.
+
+Lemma try_mut_lost_ainv : forall a m l a', try_mut_lost a m l = Some a' -> ainv a -> ainv a' /\ a_in a' = a_in a.
+Proof.
+  intros a m l a' H [P Lo Nd]. unfold try_mut_lost in H.
   destruct m; crack H; inversion H; subst a'; cbn [a_sys a_lose a_in]; (split; [|reflexivity]);
     (split; cbn [a_sys a_lose a_in]; auto);
     (eapply path_pinv; [|exact P]); solve_path.
@@ -421,7 +437,10 @@ Proof.
   - destruct l as [|e l0]; [reflexivity|]. simpl in H.
     destruct (do_ev a (snd e)) as [a'|] eqn:Hd; [|discriminate]. eapply Hev; eauto.
   - destruct (try_mut a m (map snd l)) as [a1|] eqn:Hm.
-    + destruct (try_mut_ainv _ _ _ _ Hm Hinv) as [Hinv1 Hin1]. rewrite <- Hin1. eapply IH; eauto.
+    + apply orb_true_iff in H. destruct H as [H|H].
+      * destruct (try_mut_ainv _ _ _ _ Hm Hinv) as [Hinv1 Hin1]. rewrite <- Hin1. eapply IH; eauto.
+      * destruct (try_mut_lost a m (map snd l)) as [a2|] eqn:Hm2; [|discriminate].
+        destruct (try_mut_lost_ainv _ _ _ _ Hm2 Hinv) as [Hinv2 Hin2]. rewrite <- Hin2. eapply IH; eauto.
     + destruct l as [|e l0]; [discriminate|]. simpl in H.
       destruct (do_ev a (snd e)) as [a'|] eqn:Hd; [|discriminate]. eapply Hev; eauto.
 Qed.
